@@ -428,6 +428,21 @@ class Threads(EngineBase):
                     else:
                         ops.append({"op": "ev", "ev": gen_change(rng)})
                 threads.append(ops)
+        elif prog == "C04t" and rng.random() < 0.5:
+            # targeted shape: one thread flags a recycled PID and iterates
+            # again while the other thread iterates too
+            world = None
+            nthreads = 2
+            x = rng.choice([2, 3, 4])
+            threads = [[{"op": "iter", "consume": None},
+                        {"op": "ev", "ev": {"ev": "reuse", "pid": x}},
+                        {"op": "is_running_y", "i": 0, "pid": x},
+                        {"op": "iter", "consume": None}],
+                       [{"op": "iter", "consume": rng.choice([None, 1])},
+                        {"op": "iter", "consume": None}]]
+            if rng.random() < 0.5:
+                threads[1].insert(1, {"op": "is_running_y", "i": 0,
+                                      "pid": x})
         elif prog == "C04t":
             world = None
             nthreads = 2
@@ -628,6 +643,8 @@ class Threads(EngineBase):
                     rec["out"] = ("value", got)
                 elif kind == "is_running_y":
                     ys = shared.get("yielded", {}).get(t) or []
+                    if "pid" in op:
+                        ys = [y for y in ys if y.pid == op["pid"]] or ys
                     rec["out"] = ("value", ys[op["i"] % len(ys)].is_running()
                                   if ys else None)
                 else:
